@@ -201,6 +201,7 @@ def _serdes_interp(fx, M):
             local_serdes.add(it['def'])
     I = exp.Interp(fx, 'none', extra_transfer=M.transfer, max_paths=96, inline=lambda q: q in local_serdes or INL.is_private_helper(fx, q))
     I.fork_inlined = True
+    I.shared_keys = ('STREAM_POS', 'N_READS')
     return I
 
 
@@ -223,11 +224,12 @@ def rule_point_deserializers(fx, rep):
             M.on_stream = lambda fr, op, local, _M=M: SM.referent(fr, op) == 'READER'
             I = _serdes_interp(fx, M)
             try:
-                res = I.run(path, [('byref', 'READER'), Int(comp, 1)])
+                res = I.run(path, [('byref', 'READER'), Int(comp, 1)], extra={'STREAM_POS': Int(0), 'N_READS': Int(0)})
             except (exp.NotDerivable, exp.Budget) as e:
                 rep.fail('TABLE', inst, 'not derivable: %s' % e, where, construct=path)
                 continue
             rep.sites(I.call_sites)
+            res = SM.expand_undecided(res)
             bad = []
             oks = 0
             want_ty = cty if comp else uty
@@ -315,6 +317,7 @@ def rule_point_serializers(fx, rep):
                 rep.fail('WIRE', '%s:serialize:compressed=%d' % (name, comp), 'not derivable: %s' % e, where)
                 continue
             rep.sites(I.call_sites)
+            res = SM.expand_undecided(res)
             bad = []
             want_ty = cty if comp else uty
             want_n = sc if comp else su
@@ -380,7 +383,7 @@ def rule_scalars(fx, rep):
             I.max_paths = 128
             bad = []
             try:
-                res = I.run(dp, [('byref', 'READER'), exp.TOP])
+                res = I.run(dp, [('byref', 'READER'), exp.TOP], extra={'STREAM_POS': Int(0), 'N_READS': Int(0)})
             except (exp.NotDerivable, exp.Budget) as e:
                 res = []
                 bad.append('not derivable: %s' % e)
@@ -396,31 +399,39 @@ def rule_scalars(fx, rep):
                 for e in reads:
                     if not e[2]:
                         bad.append('read_be from something other than the caller\'s reader at %s' % e[4])
-                    if e[3] != rty:
+                    if e[3] not in (rty, '<%s as ff::PrimeField>::Repr' % fty):
                         bad.append('reads a %s, expected %s' % (e[3], rty))
                 if any(e[0] == 'stream-read' for e in pth.events):
                     bad.append('raw Read call besides the big-endian coefficient reads')
-                labs = [lab_name(l) for l in pth.labels]
-                failed = any(l[0] in ('read', 'from_repr') and l[1] for l in labs)
-                r = SM.as_result(ret)
-                oc = r[0] if r else '?'
-                if failed:
-                    if oc != 'Err':
-                        bad.append('a failed read / out-of-range coefficient is not reported as Err (returns %s)' % oc)
-                    continue
-                if oc != 'Ok':
-                    bad.append('all reads and range checks succeed but the result is %s' % oc)
-                    continue
-                oks += 1
-                slots = _flat(r[1])
-                want = [('fe', k, fty) for k in range(nco)]
-                if slots != want:
-                    bad.append('coefficient slots are filled from %s, expected read k (range-checked as %s) in slot k' % ([x[1] if isinstance(x, tuple) and len(x) > 1 else x for x in slots], fty.rsplit('::', 1)[1]))
-                if len(reads) != nco:
-                    bad.append('%d reads on the success path, expected %d' % (len(reads), nco))
-                frs = [e for e in pth.events if e[0] == 'from_repr']
-                if [e[1] for e in frs] != list(range(nco)):
-                    bad.append('range checks are applied to reads %s' % [e[1] for e in frs])
+                labs0 = [lab_name(l) for l in pth.labels]
+                import stdmodel
+                o_ = stdmodel.two_variant(ret, True)
+                if o_ is not None and o_.tag is None:
+                    # an undecided Result returned as it is: both of its sides are outcomes of this path
+                    alts = [(('Ok', stdmodel.side(o_, 0)), lab_name((o_.label, 0))), (('Err', stdmodel.side(o_, 1)), lab_name((o_.label, 1)))]
+                else:
+                    alts = [(SM.as_result(ret), None)]
+                for r, extra_lab in alts:
+                    labs = labs0 + ([extra_lab] if extra_lab else [])
+                    failed = any(l[0] in ('read', 'from_repr') and l[1] for l in labs)
+                    oc = r[0] if r else '?'
+                    if failed:
+                        if oc != 'Err':
+                            bad.append('a failed read / out-of-range coefficient is not reported as Err (returns %s)' % oc)
+                        continue
+                    if oc != 'Ok':
+                        bad.append('all reads and range checks succeed but the result is %s' % oc)
+                        continue
+                    oks += 1
+                    slots = _flat(r[1])
+                    want = [('fe', k, fty) for k in range(nco)]
+                    if slots != want:
+                        bad.append('coefficient slots are filled from %s, expected read k (range-checked as %s) in slot k' % ([x[1] if isinstance(x, tuple) and len(x) > 1 else x for x in slots], fty.rsplit('::', 1)[1]))
+                    if len(reads) != nco:
+                        bad.append('%d reads on the success path, expected %d' % (len(reads), nco))
+                    frs = [e for e in pth.events if e[0] == 'from_repr']
+                    if [e[1] for e in frs] != list(range(nco)):
+                        bad.append('range checks are applied to reads %s' % [e[1] for e in frs])
             if res and oks != 1:
                 bad.append('%d success paths' % oks)
             rep.check(not bad, 'WIRE', '%s:deserialize' % label, '%d big-endian read(s) of %d bytes from the caller\'s reader, each range-checked by %s::from_repr, slot k <- read k; every failure -> Err; no panic' % (nco, width, fty.rsplit('::', 1)[1]),
